@@ -970,6 +970,15 @@ func (b *Builder) genSlice(ctx pairCtx, src, dst *SDecl, name string) {
 	}
 	dst.Fields = append(dst.Fields, FDecl{Name: name, Type: dt})
 	src.Fields = append(src.Fields, FDecl{Name: name, Type: st})
+	if src.Pkg == "" && b.chance(0.12) {
+		// a case twin of another type next to the slice field: under :case:off both match the name, only
+		// the slice fits - and it is still copied into fresh storage
+		src.Fields = append(src.Fields, FDecl{Name: lowerFirst(name), Type: "int"})
+		if _, ok := ctx.m.Get("case:off"); !ok && b.chance(0.8) {
+			ctx.m.Notations = append(ctx.m.Notations, Notation{Name: "case:off"})
+		}
+		extra += "+casetwin"
+	}
 	b.addProbe(ctx, name, "slice", dt, st, extra)
 }
 
